@@ -3,6 +3,9 @@ import DendroModel.Theory.C16Poly
 import DendroModel.Theory.C16Gap
 import DendroModel.Theory.C15Build
 import DendroModel.Theory.C16Sym
+import DendroModel.Theory.C16Up
+import DendroModel.Theory.C16UpMachine
+import DendroModel.Gen.C16Kernels
 /-! C16 — property theorems about `parsimony` (= `runNodes` over the post-order with the node-attribute store), the
 function the driver `drv_c16` runs.
 
@@ -1714,5 +1717,233 @@ example : (runMHist exTree4 [[]] [] [.defMat 0 exMO, .scoreMat 0 0 true none, .e
       .editSeq 0 2 ['C', 'G', '-', 'T'], .clone 0, .scoreMat 1 0 false (some [1, 2, 3, 4]), .editCell 0 9 1 'C']).map
     (fun r => match r with | .ok sc bc => some (sc, bc) | _ => none) =
     [none, some (0, [0, 0, 0, 0]), none, some (1, [0, 1, 0, 0]), none, none, some (12, [1, 4, 3, 4]), none] := by decide
+
+/-! ### tie A for the set kernels, the up pass, extended histories (caller-supplied objects) -/
+
+namespace Aux
+
+theorem or_self_left' (a b : Nat) : a ||| (a ||| b) = a ||| b := by
+  rw [← Nat.or_assoc, Nat.or_self]
+theorem and_self_left' (a b : Nat) : a &&& (a &&& b) = a &&& b := by
+  rw [← Nat.and_assoc, Nat.and_self]
+theorem and_left_comm' (a b c : Nat) : a &&& (b &&& c) = b &&& (a &&& c) := by
+  rw [← Nat.and_assoc, Nat.and_comm a b, Nat.and_assoc]
+theorem or_left_comm' (a b c : Nat) : a ||| (b ||| c) = b ||| (a ||| c) := by
+  rw [← Nat.or_assoc, Nat.or_comm a b, Nat.or_assoc]
+
+/-- normal form of mask expressions: associativity / commutativity / idempotence of `&&&` and `|||` (absorbs operands written in another
+    order in the source) -/
+macro "mask_nf" : tactic => `(tactic| try simp only [Nat.and_comm, Nat.and_assoc, and_left_comm', Nat.or_comm, Nat.or_assoc,
+    or_left_comm', Nat.or_self, Nat.and_self, or_self_left', and_self_left'])
+
+theorem runNodesP_spec (m : Matrix) (ws : List Nat) : ∀ (l : List T) (st : St),
+    runNodes m ws st l = match runNodesP m ws st l with
+      | (st', none) => .ok st'
+      | (_, some e) => .error e
+  | [], st => rfl
+  | nd :: rest, st => by
+    simp only [runNodes, runNodesP]
+    cases stepNode m ws st nd with
+    | error e => rfl
+    | ok st' => exact runNodesP_spec m ws rest st'
+
+theorem parsimonyP_spec (m : Matrix) (w : Option (List Nat)) (attrs : Attrs) (t : T) :
+    parsimony m w attrs t = match parsimonyP m w attrs t with
+      | (st', none) => .ok st'
+      | (_, some e) => .error e := runNodesP_spec m _ _ _
+
+end Aux
+
+/-- what a caller observes of one step of an extended history, for scoring calls -/
+def XRes.callObs : XRes → Option (Except Err (Nat × List Nat))
+  | .ok s bc => some (.ok (s, bc))
+  | .err e => some (.error e)
+  | _ => none
+
+set_option linter.unusedSimpArgs false in
+/-- **Tie A, down pass**: the model's per-character kernel `comb` (intersection if non-empty, else union and one change) is the body of
+the inner loop of the CURRENT `fitch_down_pass`, regenerated as `C16Kernels.downSet` / `downChanges`. -/
+theorem comb_eq_source (a b : SS) : comb a b = (C16Kernels.downSet a b, C16Kernels.downChanges a b) := by
+  unfold comb C16Kernels.downSet C16Kernels.downChanges
+  mask_nf
+  by_cases h : a &&& b = 0 <;> simp [h]
+
+set_option linter.unusedSimpArgs false in
+/-- **Tie A**: `score_by_character_list[n]` is increased exactly when the score is. -/
+theorem bychar_eq_source (a b : SS) : C16Kernels.downByChar a b = (comb a b).2 := by
+  unfold comb C16Kernels.downByChar
+  mask_nf
+  by_cases h : a &&& b = 0 <;> simp [h]
+
+/-- **Tie A**: `weights=None` charges every change the constant of the source (`wt = 1`). -/
+theorem unit_weight_eq_source (m : Matrix) : weightsOf m none = List.replicate (nchar m) C16Kernels.unitWeight := rfl
+
+set_option linter.unusedSimpArgs false in
+/-- **Tie A, up pass**: the model's `finalSet` is the body of the inner loop of the CURRENT `fitch_up_pass` (`C16Kernels.upFinal`). -/
+theorem finalSet_eq_source (p c l r : SS) : finalSet p c l r = C16Kernels.upFinal p c l r := by
+  unfold finalSet C16Kernels.upFinal
+  mask_nf
+  by_cases h1 : c &&& p = p <;> by_cases h2 : l &&& r = 0 <;> simp [h1, h2]
+
+/-- **The down-pass set of the root is exactly the set of root states of most-parsimonious reconstructions.** -/
+theorem root_set_mpr (t : B) (h : NonEmptyLeaves t) (s : Nat) :
+    (fitch t).1.testBit s = true ↔ ∃ a, Valid t a ∧ changes a = (fitch t).2 ∧ a.root = s := by
+  constructor
+  · intro hs
+    obtain ⟨a, hv, hr, hc⟩ := fitch_upper t h s hs
+    exact ⟨a, hv, hc, hr⟩
+  · rintro ⟨a, hv, hc, hr⟩
+    have := fitch_lower t a hv
+    rw [hr] at this
+    apply pen_eq_zero.mp
+    omega
+
+/-- **The up pass is exact** (`fitch_up_pass`, one character).  After the down pass and the up pass the set of every INTERNAL node
+(`finalAt t p`, computed with the kernel `finalSet` the driver runs) contains exactly the states that node takes in some
+most-parsimonious reconstruction: assignments of states to all nodes, agreeing with the leaf state sets, with the minimum number
+`(fitch t).2` of changes.  (Leaves are skipped by the up pass and keep their own state set.)
+The statement is about the per-character recursion `finAt`; `up_pass_machine` / `up_pass_exact` below lift it to the machines the
+driver runs (`parsimonyP` then `upPass` on the attribute store, all characters). -/
+theorem up_pass_mpr (t : B) (h : NonEmptyLeaves t) (p : Path) (l r : B) (hsub : Bt.sub t p = some (.node l r)) (G : SS)
+    (hG : finalAt t p = some G) (s : Nat) :
+    G.testBit s = true ↔ ∃ a, Valid t a ∧ changes a = (fitch t).2 ∧ a.at p = some s := by
+  have hmin := fitch_minimal t h
+  have hopt : IsOpt t (fun _ => 0) (fitch t).2 :=
+    ⟨fun a ha => by simpa [Tot] using hmin.1 a ha, by obtain ⟨a, ha, hc⟩ := hmin.2; exact ⟨a, ha, by simpa [Tot] using hc⟩⟩
+  have hF : ∀ x, (fitch t).1.testBit x = true ↔ Mpr t (fun _ => 0) (fitch t).2 [] x := by
+    intro x
+    rw [root_set_mpr t h x]
+    constructor
+    · rintro ⟨a, hv, hc, hr⟩; exact ⟨a, hv, by simpa [Tot] using hc, by cases a <;> simp [A.at, hr]⟩
+    · rintro ⟨a, hv, hc, hr⟩; exact ⟨a, hv, by simpa [Tot] using hc, by cases a <;> simpa [A.at] using hr⟩
+  have := mpr_gen t h _ _ _ hopt hF p l r hsub G hG s
+  rw [this]
+  constructor
+  · rintro ⟨a, hv, hc, hr⟩; exact ⟨a, hv, by simpa [Tot] using hc, hr⟩
+  · rintro ⟨a, hv, hc, hr⟩; exact ⟨a, hv, by simpa [Tot] using hc, hr⟩
+
+/-- **Every scoring call of every extended history is a fresh call** (clause c; caller-supplied objects).  In ANY state of an extended
+history — whatever attributes the object's nodes carry under whatever attribute names (left by earlier down passes, UP passes, failing
+calls, copied by `clone`), whatever matrix and map objects exist — a scoring call with `state_sets_attr_name` = none / default / custom
+lets its caller observe exactly what `parsimony` observes on a fresh copy of that object's tree with the matrix the source denotes now
+(a literal matrix, the current content of a matrix object, or the content a `taxon_state_sets_map` object was built from). -/
+theorem xstep_score_eq_fresh (s : XState) (j : Nat) (src : Src) (store : Option Nat) (w : Option (List Nat)) (o : Obj) (m : Matrix)
+    (hobj : s.objs[j]? = some o) (hm : srcMatrix s src = some m) (hid : (ids o.tree).Nodup) :
+    (stepX s (.score j src store w)).2.callObs = some (obs (parsimony m w [] o.tree)) := by
+  cases store with
+  | none =>
+    simp only [stepX, hm, hobj]
+    rw [parsimonyP_spec m w [] o.tree]
+    rcases parsimonyP m w [] o.tree with ⟨st, _ | e⟩ <;> rfl
+  | some name =>
+    simp only [stepX, hm, hobj]
+    rw [result_independent_of_attrs m w hid [] (getStore o.stores name), parsimonyP_spec m w (getStore o.stores name) o.tree]
+    rcases parsimonyP m w (getStore o.stores name) o.tree with ⟨st, _ | e⟩ <;> rfl
+
+/-- **The passes only read what the caller hands them**: no scoring call, up pass or dump changes a matrix object or a
+`taxon_state_sets_map` object, and a call with `state_sets_attr_name=None` changes nothing at all. -/
+theorem xstep_inputs_untouched (s : XState) (op : XOp) (h : matOpOf op = none) (hd : ∀ k src, op ≠ .defMap k src) :
+    (stepX s op).1.mats = s.mats ∧ (stepX s op).1.maps = s.maps ∧
+    (∀ j src w, op = .score j src none w → (stepX s op).1.objs = s.objs) := by
+  cases op with
+  | newTree t => simp [stepX]
+  | clone j => simp only [stepX]; cases s.objs[j]? <;> simp
+  | defMat k mo => simp [matOpOf] at h
+  | editCell k b i c => simp [matOpOf] at h
+  | editSeq k b cs => simp [matOpOf] at h
+  | defMap k src => exact absurd rfl (hd k src)
+  | score j src store w =>
+    simp only [stepX]
+    cases srcMatrix s src with
+    | none => simp
+    | some m =>
+      cases s.objs[j]? with
+      | none => simp
+      | some o => cases store <;> simp
+  | up j name mk =>
+    simp only [stepX]
+    cases s.objs[j]? with
+    | none => simp
+    | some o =>
+      cases mk with
+      | none => simp
+      | some k => cases hk : s.maps[k]? <;> simp [hk]
+  | dump j name => simp only [stepX]; cases s.objs[j]? <;> simp
+
+/-- **The machines the driver runs compute the per-character recursion** (`parsimonyP` = the down pass with its attribute store,
+`upPass` = `fitch_up_pass` over the pre-order with parent pointers).  On a fully bifurcating tree with distinct nodes whose leaves all
+have rows — whatever attributes the nodes carried before — the down pass succeeds, the up pass succeeds, and afterwards every node `u`
+(at the end of any path `p`) carries a row of `n` sets whose character `c` is `finalAt (col c bv) p`. -/
+theorem up_pass_machine {m : Matrix} {n : Nat} {t : T} {bv : BV} (hv : View m t bv) (hm : RectM m n) (hid : (ids t).Nodup)
+    (w : Option (List Nat)) (hw : WOk w n) (attrs0 : Attrs) :
+    ∃ st attrs', parsimonyP m w attrs0 t = (st, none) ∧ upPass none st.attrs t = (attrs', none) ∧
+      ∀ (p : Path) (u : T), subT t p = some u →
+        ∃ row, getAttr attrs' u.id = some row ∧ row.length = n ∧ ∀ c, c < n → finalAt (col c bv) p = some (row.getD c 0) := by
+  obtain ⟨st, hp, _⟩ := call_spec (.rooted hv) hm hid w hw attrs0
+  have hn := view_nchar hv hm
+  have hws := ws_length hn w hw
+  have hrect := (view_rect hv hm).1
+  have hpp : parsimonyP m w attrs0 t = (st, none) := by
+    have := parsimonyP_spec m w attrs0 t
+    rw [hp] at this
+    rcases hq : parsimonyP m w attrs0 t with ⟨st', _ | e⟩
+    · rw [hq] at this; simp only [Except.ok.injEq] at this; rw [this]
+    · rw [hq] at this; cases this
+  obtain ⟨hst, _⟩ := down_stored (ws := weightsOf m w) hv hid _ st hp
+  obtain ⟨attrs', hup, hfin⟩ := upPass_stored hst hid
+  refine ⟨st, attrs', hpp, hup, ?_⟩
+  obtain ⟨r1, r2⟩ := rowB_spec hws bv hrect
+  intro p u hu
+  obtain ⟨row, g1, g2, g3⟩ := finStored_cols hws hfin r1 hrect p u hu
+  refine ⟨row, g1, g2, fun c hc => ?_⟩
+  have := g3 c hc
+  rw [r2 c hc] at this
+  exact this
+
+/-- **After `fitch_down_pass` and `fitch_up_pass` every internal node carries exactly its most-parsimonious states** (model of the two
+passes as the driver runs them, all characters).  For every internal node `u` and every character `c`, state `s` is in the set stored on
+`u` iff some assignment of states to all nodes — agreeing with the leaf state sets of character `c` and with the minimum number of changes —
+gives `u` the state `s`. -/
+theorem up_pass_exact {m : Matrix} {n : Nat} {t : T} {bv : BV} (hv : View m t bv) (hm : RectM m n) (hid : (ids t).Nodup)
+    (w : Option (List Nat)) (hw : WOk w n) (attrs0 : Attrs) :
+    ∃ st attrs', parsimonyP m w attrs0 t = (st, none) ∧ upPass none st.attrs t = (attrs', none) ∧
+      ∀ (p : Path) (u : T), subT t p = some u → u.cs ≠ [] →
+        ∃ row, getAttr attrs' u.id = some row ∧ row.length = n ∧ ∀ c, c < n → ∀ s,
+          (row.getD c 0).testBit s = true ↔
+            ∃ a, Valid (col c bv) a ∧ changes a = (fitch (col c bv)).2 ∧ a.at p = some s := by
+  obtain ⟨st, attrs', h1, h2, h3⟩ := up_pass_machine hv hm hid w hw attrs0
+  refine ⟨st, attrs', h1, h2, ?_⟩
+  intro p u hu hcs
+  obtain ⟨row, g1, g2, g3⟩ := h3 p u hu
+  refine ⟨row, g1, g2, fun c hc s => ?_⟩
+  obtain ⟨bu, vu, esub⟩ := view_sub hv p u hu
+  cases vu with
+  | leaf _ => simp [T.cs] at hcs
+  | @node i x l s' a b ba bb va vb =>
+    exact up_pass_mpr (col c bv) ((view_rect hv hm).2 c hc) p (col c ba) (col c bb)
+      (by rw [esub c]; rfl) _ (g3 c hc) s
+
+/-! ### the new hypotheses are satisfiable; the up pass computes -/
+
+/-- one character on `((A, C), (A, (A, G)))` with `A = 1`, `C = 2`, `G = 4` -/
+def exB : B := .node (.node (.leaf 1) (.leaf 2)) (.node (.leaf 1) (.node (.leaf 1) (.leaf 4)))
+example : NonEmptyLeaves exB := by simp [exB, Bt.All]
+example : Bt.sub exB [false] = some (.node (.leaf 1) (.leaf 2)) := rfl
+example : (fitch (.node (.leaf 1) (.leaf 2))).1 = 3 ∧ finalAt exB [false] = some 1 ∧ finalAt exB [true, true] = some 1 ∧
+    (fitch exB).2 = 2 := by decide
+example : comb 1 2 = (3, 1) ∧ C16Kernels.downSet 1 2 = 3 ∧ finalSet 1 3 1 2 = 1 ∧ finalSet 6 1 1 8 = 7 ∧ finalSet 6 3 3 11 = 3 := by decide
+/-- an extended history: one map object scored three times (no store, default store, custom name), an up pass, a dump -/
+example : ((runXHist { objs := [], mats := [], maps := [] }
+    [.newTree exTree, .defMap 0 (.lit exMatrix), .score 0 (.map 0) none none, .score 0 (.map 0) (some 0) (some [2, 5]),
+     .up 0 0 none, .score 0 (.map 0) (some 1) none, .dump 0 0]).map
+    (fun r => match r with | .ok sc bc => some (sc, bc) | _ => none)) =
+    [none, none, some (2, [1, 1]), some (7, [2, 5]), none, some (2, [1, 1]), none] := by decide
+example : (match (parsimonyP exMatrix none [(1, [9, 9])] exTree) with
+    | (st, none) => (upPass none st.attrs exTree).2 == none && dumpAttrs (upPass none st.attrs exTree).1 exTree ==
+        [some [1, 7], some [1, 3], some [1, 3], some [2, 3], some [1, 4]] && dumpAttrs st.attrs exTree ==
+        [some [1, 7], some [3, 3], some [1, 3], some [2, 3], some [1, 4]]
+    | _ => false) = true := by decide
+example : subT exTree [false] = some (.node 1 none none none [.node 2 (some 0) none none [], .node 3 (some 1) none none []]) := rfl
+example : (ids exTree).Nodup ∧ srcMatrix { objs := [], mats := [], maps := [exMatrix] } (.map 0) = some exMatrix := by decide
 
 end DendroModel.C16
